@@ -68,3 +68,19 @@ def register(reg):
         "against their definitions, plus the shift law.",
         "parameters()/costs() index pairing demanded only for contiguously recorded generations.",
         "DESIGN.md section 5 C17")
+
+    reg("C12", "ENUM", "exploration",
+        "bounded exhaustive enumeration of sizes, permutations and extreme draws with numpy's RandomState owned",
+        "LHS is run with a scripted RandomState: every combination of column permutations for N<=4 (<=2 columns) and every "
+        "uniform-draw pattern with <=2 cells at the extremes, so 'one sample per stratum' is decided for all draws of those "
+        "sizes rather than for one seed; Halton is compared point by point with an independent radical inverse up to N=64 in "
+        "6 bases (forcing the second prime-sieve round); grids and random counts are enumerated outright.",
+        "Scripted RandomState honours numpy's contract; tolerance 1e-12 relative.",
+        "DESIGN.md section 5 C12")
+    reg("C13", "ENUM", "exploration",
+        "bounded exhaustive enumeration of design sizes and level vectors",
+        "Every supported Plackett-Burman size (1..23), Box-Behnken 3..8, every full-factorial level shape in {1..4}^{1..4} and every "
+        "GSD level vector in {2..5}^{2..4} x reduction 2..5 x complementary count is generated and its defining structure "
+        "(product, orthogonality/balance, pair corners + centre, disjoint cover) is checked exactly.",
+        "Documented refusals (ValueError, size assertion) are accepted results.",
+        "DESIGN.md section 5 C13")
